@@ -282,7 +282,9 @@ class FilterFn(TreeFn):
   def iterate(
       self, input_iterator: Iterable[tree.TreeLike]
   ) -> Iterator[tree.TreeLike[_T]]:
-    it_ = iter_utils.processed_with_inputs(self._iterate, iter(input_iterator))
+    it_ = iter_utils.processed_with_inputs(
+        self._iterate, iter(input_iterator), ignore_error=self.ignore_error
+    )
     return (elem for (value,), elem in it_ if value)
 
 
